@@ -1,6 +1,7 @@
 // C01  Forward transforms equal the DFT for every length and input.
 // Oracle: O(n^2) DFT in long double (kit/num.h), criterion ||X - Xref||_2 <= 32 n eps ||Xref||_2 as stated.
 #include "kit/num.h"
+#include "kit/prelude.h"
 #include <dsplib.h>
 
 using namespace vk;
